@@ -61,6 +61,7 @@ type Engine struct {
 	unfolding   map[*ssa.Function]bool
 	unfolded    map[string]bool
 	RepoPrefix  string // module path prefix of functions that must have contracts
+	ExpandAll   bool   // expand constant-range quantifiers at generation time (no SMT quantifiers)
 
 	Assumptions []*smt.Term
 	GoalAssume  map[int]bool // indices of assumptions that are assumed proof goals (assert-then-assume)
@@ -89,10 +90,13 @@ type Engine struct {
 	UsedStd       map[string]bool
 	Inlined       map[string]bool
 	verifying     *ssa.Function
-	forced        map[*ssa.If]bool
+	forced        map[string]bool         // branch decisions by call-context-qualified key
 	havocArr      map[*smt.Term]havocInfo // fresh arrays introduced by havocLocs
-	undecided     []*ssa.If
-	undecidedSeen map[*ssa.If]bool
+	undecided     []string
+	undecidedSeen map[string]bool
+	splitInlined  bool // the frame about to be entered is an inlined repository function
+	ctxSeq        int
+	callCtx       string // call path of the frame being entered (for path splitting)
 }
 
 type Observable struct {
@@ -210,6 +214,9 @@ type frame struct {
 	olds     map[string]Val
 	panics   bool // an explicit panic was reached on some path
 	top      bool // frame of the function under verification
+	sites    map[token.Pos]int
+	split    bool   // branches of this frame take part in path splitting
+	ctx      string // call path from the function under verification
 }
 
 type retRec struct {
@@ -290,6 +297,9 @@ func (e *Engine) runFunc(fn *ssa.Function, args []Val, bindings []Val, st *State
 	f := &frame{fn: fn, vals: map[ssa.Value]Val{}, bindings: bindings, args: args, fc: fc,
 		inPC: map[*ssa.BasicBlock]*smt.Term{}, outSt: map[*ssa.BasicBlock]*State{}, edge: map[[2]int]*smt.Term{},
 		loops: map[*ssa.BasicBlock]*loopCtx{}, base: e.pc, entrySt: st, top: fc != nil}
+	f.ctx = e.callCtx
+	f.split = e.forced != nil && e.specDepth == 0 && (f.top || e.splitInlined)
+	e.splitInlined = false
 	for i, p := range fn.Params {
 		v := args[i]
 		f.vals[p] = v
@@ -339,7 +349,7 @@ func (e *Engine) runFunc(fn *ssa.Function, args []Val, bindings []Val, st *State
 	for i := len(f.rets) - 2; i >= 0; i-- {
 		res = e.iteVal(f.rets[i].pc, f.rets[i].val, res)
 	}
-	if !f.panics && len(f.headers) == 0 && !(f.top && e.forced != nil) {
+	if !f.panics && len(f.headers) == 0 && !f.split {
 		// loop-free and panic-free: every path returns: the return condition is the entry condition
 		return res, out, f.base
 	}
@@ -461,13 +471,14 @@ func (e *Engine) edgeCond(f *frame, from, to *ssa.BasicBlock) *smt.Term {
 		if len(c.C) == 0 {
 			return e.X.False // the block was cut short (its path condition became false)
 		}
-		if f.top && e.forced != nil && !c.C[0].IsConst() && !c.C[0].IsTrue() && !c.C[0].IsFalse() {
+		if f.split && !c.C[0].IsConst() && !c.C[0].IsTrue() && !c.C[0].IsFalse() {
 			// path splitting: this branch is explored one side at a time
-			want, ok := e.forced[iff]
+			key := fmt.Sprintf("%s/b%d", f.ctx, from.Index)
+			want, ok := e.forced[key]
 			if !ok {
-				if !e.undecidedSeen[iff] {
-					e.undecidedSeen[iff] = true
-					e.undecided = append(e.undecided, iff)
+				if !e.undecidedSeen[key] {
+					e.undecidedSeen[key] = true
+					e.undecided = append(e.undecided, key)
 				}
 			} else if (from.Succs[0] == to) != want {
 				return e.X.False
